@@ -47,6 +47,7 @@ import Penguin.Lemmas.HttpProxy
 import Penguin.Lemmas.RemoteSpecKind
 import Penguin.Model.Dispatch
 import Penguin.Model.FixedTarget
+import Penguin.Lemmas.ServerForward
 
 namespace Penguin.C01
 open Penguin Penguin.Constants
@@ -1486,4 +1487,183 @@ example : (udpListener ⟨7, 1, [0x68], 53⟩ {} [.rx 100 [1] [5] true, .rx 200 
 
 end FixedTarget
 
+end Penguin.C01
+
+namespace Penguin.C01
+
+/-! ### The server's TCP forwarder -/
+section ServerForward
+open Penguin Penguin.Constants Penguin.ServerForward
+
+/-- Source-shape tie: the statements of `tcp_forwarder_on_channel`, of the closure of `bind_tcp_for_target` and of the
+    candidate loop of `resolve_and_try` (`penguin/src/server/forwarder.rs`), regenerated from the source, are the ones
+    `Model/ServerForward.lean` was transcribed from: host and port are the stream's `dest_host` / `dest_port`; ONE
+    `bind_tcp_for_target((rhost, rport), …)`; ONE `socket.connect(target)` on the returned socket to the returned
+    target; `peer_addr()?`; the bridge; a candidate that `is_ipv4()` is bound on `outgoing_from_v4`, any other on
+    `outgoing_from_v6`; `Ok(r) => return Ok(r)`, `Err(e) => last_err = Some(e)`; `InvalidInput` when nothing was tried. -/
+theorem server_forward_shape_as_in_source :
+    serverFwdParams = fwdParamsTexts ∧ serverFwdBody = fwdBodyTexts ∧
+    serverFwdBindParams = bindParamsTexts ∧ serverFwdBindCall = bindCallTexts ∧
+    serverFwdBindPrelude = bindPreludeTexts ∧ serverFwdBindCond = bindCondTexts ∧
+    serverFwdBindThen = bindThenTexts ∧ serverFwdBindElse = bindElseTexts ∧ serverFwdBindTail = bindTailTexts ∧
+    serverFwdResolvePrelude = resolvePreludeTexts ∧ serverFwdLoopHead = loopHeadTexts ∧
+    serverFwdLoopMatch = loopMatchTexts ∧ serverFwdLoopArms = loopArmsTexts ∧
+    serverFwdResolveTail = resolveTailTexts := by decide
+
+/-- Whatever the resolver and the OS answer: the resolver is asked for exactly the stream's (dest_host, dest_port);
+    every address the forwarder tries to connect to, is connected to or bridges with is one of the addresses the
+    resolver answered for exactly that question, and it is the candidate a socket was bound for; there is at most one
+    connect attempt; every bind (successful or not) was made on the configured outgoing address of the candidate's own
+    family, for a candidate of the resolution. -/
+theorem server_connects_only_to_a_resolved_address_of_the_stream_target (env : Env) (host : Bytes) (port : Nat) :
+    let t := tcpForwarder env host port
+    (∀ h p as, Event.resolved h p as ∈ t → h = host ∧ p = port ∧ env.resolve host port = .ok as) ∧
+    (∀ a, (Event.connectTried a ∈ t ∨ Event.connected a ∈ t ∨ Event.bridged a ∈ t) →
+      ∃ as, env.resolve host port = .ok as ∧ a ∈ as ∧ Event.bound a.family a ∈ t) ∧
+    t.countP Event.isConnectTry ≤ 1 ∧
+    (∀ f a, (Event.bound f a ∈ t ∨ Event.bindFailed f a ∈ t) →
+      f = a.family ∧ ∃ as, env.resolve host port = .ok as ∧ a ∈ as) := by
+  intro t
+  have ht : t = _ := tcpForwarder_eq env host port
+  cases hu : env.utf8Ok host
+  · simp [ht, hu, Event.isConnectTry]
+  · cases hr : env.resolve host port with
+    | error c => simp [ht, hu, hr, Event.isConnectTry]
+    | ok as =>
+      cases hf : as.find? (fun b => env.bindOk b.family) with
+      | none =>
+        simp only [hu, hr, hf] at ht
+        have h0 : List.countP (Event.isConnectTry ∘ fun b => Event.bindFailed b.family b) as = 0 := by
+          rw [List.countP_eq_zero]; intro b _; simp [Event.isConnectTry]
+        simp [ht, Event.isConnectTry, List.countP_append, List.countP_map, h0]
+        grind
+      | some a =>
+        simp only [hu, hr, hf] at ht
+        have hmem : a ∈ as := List.mem_of_find?_eq_some hf
+        have hsub : ∀ b ∈ as.takeWhile (fun b => !env.bindOk b.family), b ∈ as :=
+          fun b hb => (List.takeWhile_sublist _).subset hb
+        have h0 : List.countP (Event.isConnectTry ∘ fun b => Event.bindFailed b.family b)
+            (as.takeWhile (fun b => !env.bindOk b.family)) = 0 := by
+          rw [List.countP_eq_zero]; intro b _; simp [Event.isConnectTry]
+        rcases connectAndBridge_cases env a with ⟨_, hc⟩ | ⟨_, _, hc⟩ | ⟨_, _, _, hc⟩ | ⟨_, _, _, hc⟩ <;>
+          (rw [hc] at ht
+           simp [ht, Event.isConnectTry, List.countP_cons, List.countP_append, List.countP_map, h0]
+           grind)
+
+/-- The chosen candidate — the one a socket is bound for, hence (previous theorem) the only one ever connected to — is
+    the FIRST address in the resolver's order whose bind succeeds: every candidate before it was tried and failed, no
+    candidate after it is touched; at most one candidate is chosen. -/
+theorem server_first_bindable_candidate_wins (env : Env) (host : Bytes) (port : Nat) :
+    let t := tcpForwarder env host port
+    (∀ f a, Event.bound f a ∈ t →
+      ∃ pre post, env.resolve host port = .ok (pre ++ a :: post) ∧ (∀ b ∈ pre, env.bindOk b.family = false) ∧
+        env.bindOk a.family = true ∧ (∀ f' b, Event.bindFailed f' b ∈ t → b ∈ pre) ∧
+        (∀ b ∈ pre, Event.bindFailed b.family b ∈ t)) ∧
+    (∀ f a f' a', Event.bound f a ∈ t → Event.bound f' a' ∈ t → a = a' ∧ f = f') := by
+  intro t
+  have ht : t = _ := tcpForwarder_eq env host port
+  cases hu : env.utf8Ok host
+  · simp [ht, hu]
+  · cases hr : env.resolve host port with
+    | error c => simp [ht, hu, hr]
+    | ok as =>
+      cases hf : as.find? (fun b => env.bindOk b.family) with
+      | none => simp [ht, hu, hr, hf]
+      | some a =>
+        simp only [hu, hr, hf] at ht
+        obtain ⟨hpa, pre, post, has, hpre⟩ := List.find?_eq_some_iff_append.mp hf
+        have htw : as.takeWhile (fun b => !env.bindOk b.family) = pre := by
+          rw [has, List.takeWhile_append_of_pos (by simpa using hpre)]
+          simp [hpa]
+        rw [htw] at ht
+        rcases connectAndBridge_cases env a with ⟨_, hc⟩ | ⟨_, _, hc⟩ | ⟨_, _, _, hc⟩ | ⟨_, _, _, hc⟩ <;>
+          (rw [hc] at ht
+           simp [ht]
+           exact ⟨⟨pre, ⟨post, has⟩, by simpa using hpre, by simpa using hpa, by grind, by grind⟩, by grind⟩)
+
+/-- Every failure drops the stream with its error class and nothing is bridged: a `dest_host` that is not UTF-8
+    (nothing is resolved); a resolver error; an empty resolution (`InvalidInput`); no bindable candidate (the bind
+    error of the LAST candidate, no connect attempt); a refused connect.  The trace always ends with `dropped e` or
+    `finished`; the stream is bridged exactly when the host is UTF-8, the resolver answered, some candidate is bindable
+    and the connect to the FIRST bindable one (and `peer_addr`) succeeded; `finished` only after a bridge. -/
+theorem server_forward_failure_drops_the_stream (env : Env) (host : Bytes) (port : Nat) :
+    let t := tcpForwarder env host port
+    (env.utf8Ok host = false → t = [.dropped .invalidHost]) ∧
+    (∀ c, env.utf8Ok host = true → env.resolve host port = .error c → t = [.dropped (.resolve c)]) ∧
+    (env.utf8Ok host = true → env.resolve host port = .ok [] → t = [.resolved host port [], .dropped .noAddress]) ∧
+    (∀ as l, env.utf8Ok host = true → env.resolve host port = .ok as → as.getLast? = some l →
+      (∀ b ∈ as, env.bindOk b.family = false) →
+      t.getLast? = some (.dropped (.bind l.family)) ∧ (∀ a, Event.connectTried a ∉ t ∧ Event.bridged a ∉ t)) ∧
+    (∀ a, Event.connectTried a ∈ t → env.connectOk a = false →
+      t.getLast? = some (.dropped .connect) ∧ Event.connected a ∉ t ∧ ∀ b, Event.bridged b ∉ t) ∧
+    ((∃ e, t.getLast? = some (.dropped e)) ∨ t.getLast? = some .finished) ∧
+    ((∃ a, Event.bridged a ∈ t) ↔ env.utf8Ok host = true ∧ ∃ as a, env.resolve host port = .ok as ∧
+        as.find? (fun b => env.bindOk b.family) = some a ∧ env.connectOk a = true ∧ env.peerAddrOk a = true) ∧
+    (Event.finished ∈ t ↔ (∃ a, Event.bridged a ∈ t) ∧ env.bridgeOk = true) ∧
+    (∀ e, Event.dropped e ∈ t → e ≠ .bridge → ∀ a, Event.bridged a ∉ t) := by
+  intro t
+  have ht : t = _ := tcpForwarder_eq env host port
+  cases hu : env.utf8Ok host
+  · simp [ht, hu]
+  · cases hr : env.resolve host port with
+    | error c => simp [ht, hu, hr]
+    | ok as =>
+      cases hf : as.find? (fun b => env.bindOk b.family) with
+      | none =>
+        simp only [hu, hr, hf] at ht
+        have hall : ∀ b ∈ as, env.bindOk b.family = false := by simpa using hf
+        simp only [if_neg (by decide : ¬ (true = false))] at ht
+        have hl : t.getLast? = some (.dropped (lastBindErr as none)) := by rw [ht, getLast?_cons_append_singleton]
+        rw [hl]
+        refine ⟨by simp, by simp, ?_, ?_, ?_, by simp, ?_, ?_, ?_⟩
+        · intro _ h; cases h; simp [ht, lastBindErr]
+        · intro as' l _ h hla _; cases h; simp [ht, lastBindErr, hla]
+        · intro a h; simp [ht] at h
+        · simp [ht, hf]
+        · simp [ht]
+        · simp [ht]
+      | some a =>
+        simp only [hu, hr, hf] at ht
+        have hmem : a ∈ as := List.mem_of_find?_eq_some hf
+        have hpa : env.bindOk a.family = true := by simpa using List.find?_some hf
+        rcases connectAndBridge_cases env a with ⟨h1, hc⟩ | ⟨h1, h2, hc⟩ | ⟨h1, h2, h3, hc⟩ | ⟨h1, h2, h3, hc⟩ <;>
+          (rw [hc] at ht
+           simp only [if_neg (by decide : ¬ (true = false))] at ht
+           have hl := congrArg List.getLast? ht
+           rw [getLast?_cons_append_append _ _ _ _ (by simp)] at hl
+           simp only [List.getLast?_cons_cons, List.getLast?_singleton] at hl
+           rw [hl]
+           have hne : as ≠ [] := List.ne_nil_of_mem hmem
+           refine ⟨by simp, by simp, ?_, ?_, ?_, by simp, ?_, ?_, ?_⟩
+           · intro _ h; cases h; exact absurd rfl hne
+           · intro as' l _ h _ hall; cases h; have := hall a hmem; simp [hpa] at this
+           · intro a' h; simp [ht] at h; subst h; simp [ht, h1]
+           · simp [ht, hf, h1] <;> assumption
+           · simp [ht] <;> assumption
+           · simp [ht])
+
+/-- Non-vacuity: the resolver answers `[v6 #1, v4 #2, v4 #3]` for ("h", 80); no v6 socket can be bound: the v6
+    candidate is tried on the v6 outgoing address and fails, the first v4 candidate is bound on the v4 outgoing address,
+    connected to and bridged; the second v4 candidate is never touched. -/
+example : tcpForwarder ⟨fun _ => true, fun h p => if h = [0x68] ∧ p = 80 then .ok [⟨.v6, 1, 80⟩, ⟨.v4, 2, 80⟩, ⟨.v4, 3, 80⟩] else .error 2,
+      fun f => f = .v4, fun _ => true, fun _ => true, true⟩ [0x68] 80 =
+    [.resolved [0x68] 80 [⟨.v6, 1, 80⟩, ⟨.v4, 2, 80⟩, ⟨.v4, 3, 80⟩], .bindFailed .v6 ⟨.v6, 1, 80⟩, .bound .v4 ⟨.v4, 2, 80⟩,
+     .connectTried ⟨.v4, 2, 80⟩, .connected ⟨.v4, 2, 80⟩, .bridged ⟨.v4, 2, 80⟩, .finished] := by decide
+/-- the same resolution, the chosen candidate refuses: dropped with `connect`; the third candidate is NOT tried (as the
+    code is: one connect attempt per stream) -/
+example : tcpForwarder ⟨fun _ => true, fun _ _ => .ok [⟨.v6, 1, 80⟩, ⟨.v4, 2, 80⟩, ⟨.v4, 3, 80⟩],
+      fun f => f = .v4, fun a => a.ip = 3, fun _ => true, true⟩ [0x68] 80 =
+    [.resolved [0x68] 80 [⟨.v6, 1, 80⟩, ⟨.v4, 2, 80⟩, ⟨.v4, 3, 80⟩], .bindFailed .v6 ⟨.v6, 1, 80⟩, .bound .v4 ⟨.v4, 2, 80⟩,
+     .connectTried ⟨.v4, 2, 80⟩, .dropped .connect] := by decide
+/-- nothing bindable: the LAST candidate's bind error; an empty resolution; a resolver error; a host that is not UTF-8 -/
+example : tcpForwarder ⟨fun _ => true, fun _ _ => .ok [⟨.v4, 2, 80⟩, ⟨.v6, 1, 80⟩], fun _ => false, fun _ => true, fun _ => true, true⟩ [0x68] 80 =
+    [.resolved [0x68] 80 [⟨.v4, 2, 80⟩, ⟨.v6, 1, 80⟩], .bindFailed .v4 ⟨.v4, 2, 80⟩, .bindFailed .v6 ⟨.v6, 1, 80⟩, .dropped (.bind .v6)] := by decide
+example : tcpForwarder ⟨fun _ => true, fun _ _ => .ok [], fun _ => true, fun _ => true, fun _ => true, true⟩ [0x68] 80 =
+    [.resolved [0x68] 80 [], .dropped .noAddress] := by decide
+example : tcpForwarder ⟨fun _ => true, fun _ _ => .error 7, fun _ => true, fun _ => true, fun _ => true, true⟩ [0x68] 80 =
+    [.dropped (.resolve 7)] := by decide
+example : tcpForwarder ⟨fun h => h != [0xff], fun _ _ => .ok [⟨.v4, 2, 80⟩], fun _ => true, fun _ => true, fun _ => true, true⟩ [0xff] 80 =
+    [.dropped .invalidHost] := by decide
+
+end ServerForward
 end Penguin.C01
